@@ -3,12 +3,13 @@ package main
 func init() {
 	checks["C31"] = &checkDef{
 		Level:       levelOther,
-		Explanation: "Real MGet, MGetCache, JsonMGet, JsonMGetCache, MSet, MSetNX, MDel, JsonMSet (helper.go: clientMGet/clientMSet/clientMDel/clientJSONMSet, clusterMGet/clusterJsonMGet per-slot grouping, doMultiCache, doMultiSet, arrayToKV) on (a) a real singleClient over a stub connection and (b) the generic batching path taken for cluster clients (a stub Client with a cluster builder, so keys are grouped per slot with the real cmds.Slot). 1..3 keys drawn from a menu with duplicates and same-slot ({t}1,{t}2) / different-slot pairs; the server's value of every key is a symbolic byte string, one key is missing, per-key writes to one key fail. Oracle: the result's key set equals the input key set, each key maps to the server's reply (or nil, or error) for exactly that key — compared on symbolic values, so any positional mix-up yields a satisfiable difference —, a single multi-key command reports its one outcome for every key, and every key reaches the server.",
+		Explanation: "Real MGet, MGetCache, JsonMGet, JsonMGetCache, MSet, MSetNX, MDel, JsonMSet (helper.go: clientMGet/clientMSet/clientMDel/clientJSONMSet, clusterMGet/clusterJsonMGet per-slot grouping, doMultiCache, doMultiSet, arrayToKV) on (a) a real singleClient over a stub connection and (b) the generic batching path taken for cluster clients (a stub Client with a cluster builder, so keys are grouped per slot with the real cmds.Slot). 1..3 keys drawn from a menu with duplicates and same-slot ({t}1,{t}2) / different-slot pairs; the server's value of every key is a symbolic byte string, one key is missing, per-key writes to one key fail. The cluster-path server refuses a multi-key read whose keys hash to different slots (CROSSSLOT), as a cluster node does. Oracle: the result's key set equals the input key set, each key maps to the server's reply (or nil, or error) for exactly that key — compared on symbolic values, so any positional mix-up yields a satisfiable difference —, a single multi-key command reports its one outcome for every key, and every key reaches the server.",
 		Assumptions: []string{"an honest server: one array element per requested key", "map iteration order as the engine's insertion order (MSet-style helpers iterate over the caller's map)"},
 		Outside:     []string{"standalone and sentinel clients (same code path as singleClient in the helpers' type switch)", "more than 3 keys; short or malformed arrays from the server"},
-		Bounds:      map[string]any{"quick": "1..3 keys from a 5-key menu × 8 helpers × 2 client kinds", "thorough": "1..4 keys"},
+		Bounds:      map[string]any{"quick": "1..3 keys from a 5-key menu × 8 helpers × 2 client kinds; MGet/JsonMGet per-slot grouping on the cluster path with every list of 4 keys", "thorough": "1..4 keys; grouping with every list of 5 keys"},
 		specs: func(tier string) []specRef {
 			return []specRef{hsx(rootPkg, "VerifC31_helpers", P{"max_keys": q(tier, int64(3), 4)}, 3000000, 3000, "single", "generic"),
+				hsx(rootPkg, "VerifC31_grouping", P{"max_keys": q(tier, int64(4), 5)}, 3000000, 3000, "generic"),
 				// MGetCache/JsonMGetCache ride on DoMultiCache: the real pipe + lru batch path with duplicates (shared with C11)
 				hsd(rootPkg, "VerifC11_batch", P{"max_keys": q(tier, int64(3), 4)}, 0, 3000000, 3000, "mget", "multicache")}
 		},
